@@ -201,10 +201,25 @@ orc_parse_code (const char *code, OrcProgram ***programs, int *n_programs,
       continue;
     }
 
-    if (orc_line_is_directive (line)) {
-      orc_parse_handle_directive (parser, line);
-    } else {
-      orc_parse_handle_opcode (parser, line);
+    {
+      /* Limits (number of instructions or of variables of one class) are
+       * detected by the construction API, which records the first problem in
+       * the program: turn that into an error record for this line */
+      OrcProgram *program = parser->program;
+      int had_error = program && program->error_msg != NULL;
+      int n_errors = orc_vector_length (&parser->errors);
+
+      if (orc_line_is_directive (line)) {
+        orc_parse_handle_directive (parser, line);
+      } else {
+        orc_parse_handle_opcode (parser, line);
+      }
+
+      if (program && program == parser->program && !had_error &&
+          program->error_msg != NULL &&
+          orc_vector_length (&parser->errors) == n_errors) {
+        orc_parse_add_error (parser, "%s", program->error_msg);
+      }
     }
   }
   orc_parse_free_line (parser);
